@@ -211,9 +211,21 @@ func c35actionsRules(k *eng.Check, movers map[string]string, isMover eng.CallM) 
 }
 
 func c35fastForward(k *eng.Check) {
-	fn := k.Fn("(*store/datas.database).doFastForward")
-	if fn == nil {
+	top := k.Fn("(*store/datas.database).doFastForward")
+	if top == nil {
 		return
+	}
+	// the ancestry test and the update may live in single-caller phase helpers of doFastForward: the comparisons are
+	// analysed in the function that calls FindCommonAncestor, the path rule over the helper tree
+	fam := k.C.FamilyOf(top, k.C.Funcs("store/datas"), 2)
+	fn := top
+	if len(eng.Calls(top, eng.Static("store/datas.FindCommonAncestor"), false)) == 0 {
+		for _, g := range fam[1:] {
+			if len(eng.Calls(g, eng.Static("store/datas.FindCommonAncestor"), false)) > 0 {
+				fn = g
+				k.FuncsSeen[g] = true
+			}
+		}
 	}
 	upd := eng.CallSet(fn, eng.Static("(*store/datas.database).update"))
 	noHead := eng.CondEdges(fn, `^call:\(store/datas\.Dataset\)\.MaybeHeadAddr\(.*\)#1$`, false)
@@ -277,8 +289,22 @@ func c35fastForward(k *eng.Check) {
 	if nCmp < 1 {
 		k.Unknown("ff-ancestor-check", eng.Name(fn)+"#operands", "a comparison involving the common ancestor", "none found (confirmed floor 1)")
 	}
-	k.OnlyAfter("ff-ancestor-check", fn, "the dataset map is edited only when the dataset has no head or a common ancestor was found", upd, 1, eng.UnionOf(noHead, found))
-	k.OnlyAfter("ff-ancestor-check", fn, "the dataset map is edited only when the dataset has no head or mergeNeeded(current head, common ancestor) is false", upd, 1, eng.UnionOf(noHead, notNeeded))
+	if fn == top && upd.Len() > 0 {
+		k.OnlyAfter("ff-ancestor-check", fn, "the dataset map is edited only when the dataset has no head or a common ancestor was found", upd, 1, eng.UnionOf(noHead, found))
+		k.OnlyAfter("ff-ancestor-check", fn, "the dataset map is edited only when the dataset has no head or mergeNeeded(current head, common ancestor) is false", upd, 1, eng.UnionOf(noHead, notNeeded))
+	} else {
+		updF := func(g *ssa.Function) *eng.Set { return eng.CallSet(g, eng.Static("(*store/datas.database).update")) }
+		only := func(s *eng.Set) eng.FamSets {
+			return func(g *ssa.Function) *eng.Set {
+				if g == fn {
+					return s
+				}
+				return eng.NewSet()
+			}
+		}
+		k.OnlyAfterFam("ff-ancestor-check", fam, "the dataset map is edited only when the dataset has no head or a common ancestor was found", updF, 1, only(eng.UnionOf(noHead, found)))
+		k.OnlyAfterFam("ff-ancestor-check", fam, "the dataset map is edited only when the dataset has no head or mergeNeeded(current head, common ancestor) is false", updF, 1, only(eng.UnionOf(noHead, notNeeded)))
+	}
 	for _, ci := range eng.Calls(fn, eng.Static("store/datas.FindCommonAncestor"), false) {
 		a := ci.Common().Args
 		ok := len(a) >= 3 && c39fromCall(a[1], eng.Static("(store/datas.Dataset).MaybeHead")) && eng.Slice(a[2], true, func(v ssa.Value) bool {
